@@ -508,6 +508,13 @@ def p42(): return lambda e: hyp_h(e.v)
 def corrected_h(pt, scale=1.5, /, offset=0.25, flag=True, *, k="s"): return pt.f(scale, offset, flag, k)
 def d43(ds): return ds.Select(lambda e: (corrected_h(e.a, 2.0), corrected_h(e.b), corrected_h(e.c, 2.0, 3.0, k="t"), corrected_h(e.d, flag=False)))
 def p43(): return lambda e: (corrected_h(e.a, 2.0), corrected_h(e.b), corrected_h(e.c, 2.0, 3.0, k="t"), corrected_h(e.d, flag=False))
+# defaults written as plain constants and REPLACED after the def (a configuration step tuning a library's helper): python calls the
+# helper with what __defaults__ / __kwdefaults__ hold now
+def rescaled_h(x, k=1.0, *, u="GeV"): return x.f(k, u)
+rescaled_h.__defaults__ = (1.05,)
+rescaled_h.__kwdefaults__["u"] = "MeV"
+def d44(ds): return ds.Select(lambda e: (rescaled_h(e.a), rescaled_h(e.b, 2.0, u="keV")))
+def p44(): return lambda e: (rescaled_h(e.a), rescaled_h(e.b, 2.0, u="keV"))
 # a captured lambda assigned the ordinary way
 add_one = lambda x: x.plus1
 def d25(ds): return ds.Select(lambda e: add_one(e.v))
@@ -531,7 +538,7 @@ def p6(): return lambda e: e.jets.Select(lambda j: two(j, e))
 
 def directed(ctx):
     m = modgen.load(DIRECTED, "c05d")
-    env = {n: getattr(m, n) for n in ("ident", "const", "sh", "addy", "two", "outer", "add3", "deep", "inner_kw", "outer_kw", "add_to_all", "table", "five_plus", "shifted", "corrected", "next_one", "after_deco", "nothing", "plus_1", "plus_1_then_10", "scale2", "inner_s", "outer_s", "helper_k", "h_b", "h_c", "add_one", "calibrated", "to_gev", "offset", "adder", "call_with_y", "plus_one", "inc_h", "apply_h", "bump_h", "twice_h", "compose_h", "cut10", "cut20", "in_a", "in_b", "up2", "down2", "made_hh", "stepped_h", "root_c05", "dist_h", "hyp_h", "corrected_h")}
+    env = {n: getattr(m, n) for n in ("ident", "const", "sh", "addy", "two", "outer", "add3", "deep", "inner_kw", "outer_kw", "add_to_all", "table", "five_plus", "shifted", "corrected", "next_one", "after_deco", "nothing", "plus_1", "plus_1_then_10", "scale2", "inner_s", "outer_s", "helper_k", "h_b", "h_c", "add_one", "calibrated", "to_gev", "offset", "adder", "call_with_y", "plus_one", "inc_h", "apply_h", "bump_h", "twice_h", "compose_h", "cut10", "cut20", "in_a", "in_b", "up2", "down2", "made_hh", "stepped_h", "root_c05", "dist_h", "hyp_h", "corrected_h", "rescaled_h")}
     tags = ["bare-parameter", "constant-body", "nested-lambda-shadows-parameter", "argument-captured-by-inner-binder", "reordered-keywords", "helper-calls-helper", "call-in-nested-lambda", "curried-two-deep-lambdas-argument-names-innermost", "two-deep-nested-lambdas-argument-names-innermost",
             "keyword-only-parameter-hides-argument", "default-of-a-lambda-that-stays", "new-name-already-bound-in-scope", "keyword-of-a-call-that-stays", "default-bound-at-definition",
             "bound-method", "functools-wraps-wrapper", "lambda-on-the-decorator-line", "bare-return", "closures-of-one-factory-calling-each-other",
@@ -543,7 +550,7 @@ def directed(ctx):
             "sibling-lambdas-of-one-comprehension-differing-in-defaults", "closures-of-one-factory-differing-in-defaults",
             "function-default-written-with-a-loop-variable", "function-default-written-with-a-factory-parameter", "function-default-whose-name-was-deleted",
             "early-bound-function-name-bound-by-the-passed-lambda", "early-bound-function-name-bound-by-an-outer-helper",
-            "defaults-on-positional-only-ordinary-and-keyword-only-parameters"]
+            "defaults-on-positional-only-ordinary-and-keyword-only-parameters", "constant-defaults-replaced-after-the-def"]
     for i, tag in enumerate(tags):
         ctx.case("directed:" + tag, True)
         expected = probe.behaviour(getattr(m, f"p{i}")())
